@@ -268,10 +268,28 @@ LEAF_FAMILIES = [
                                       if l in on])]) +
                           ([('rolE', 'rx')] if 'rolE:rx' in on else []) +
                           ([('rx', 'rx')] if 'rx:rx' in on else []))), 4),
+    # custom checks that report their verdict as ANY true or false value
+    # ("a true value, not necessarily True"): strings, numbers, containers
+    (['vobj:0', 'vobj:1', 'vobj:2', 'vobj:3'],
+     lambda on: ({}, {'vals': dict(
+         (str(i), (VOBJ_TRUE if 'vobj:%d' % i in on else VOBJ_FALSE)[i])
+         for i in range(4))}), 4),
 ]
+VOBJ_TRUE = ['yes', 1, [0], {'k': 0}]
+VOBJ_FALSE = ['', 0, None, []]
+
+
+def _register_vobj():
+    from oslo_policy import _checks
+
+    class VObj(_checks.Check):
+        def __call__(self, target, creds, enforcer, current_rule=None):
+            return creds['vals'][self.match]
+    _checks.register('vobj', VObj)
 
 
 def run_S7(cx, job):
+    _register_vobj()
     leaf_texts, world_of, kmax = LEAF_FAMILIES[job['family']]
     for tokens in lang.sentences(job['len']):
         k = tokens.count('L')
